@@ -15,6 +15,8 @@ type Profile struct {
 	Flush, Evict, Reopen, Snap, SnapRead, SnapClose, Revert int
 	Copy, Visit, SetColl, RmColl, Malformed, Dump, Shape    int
 	Image, Len, Drop                                        int
+	HeapCheck, Churn, NVisit, RefCheck, Stores              int
+	CloseAll, NoGet                                         bool
 	MemOnly                                                 int // percent of histories on a memory-only store
 	MaxColls                                                int
 	BigVals                                                 bool
@@ -233,6 +235,22 @@ func (g *Gen) history() []string {
 		g.emit("setcoll %d %s", main.sid, hx([]byte(n)))
 		main.names[n] = true
 	}
+	for x := 1; x < g.p.Stores; x++ {
+		o := &gstore{sid: g.nextSid, names: map[string]bool{}}
+		g.nextSid++
+		if r.Intn(2) == 0 {
+			o.mem = true
+			g.emit("mem %d", o.sid)
+		} else {
+			o.fid = g.nextFid
+			g.nextFid++
+			g.emit("open %d %d", o.sid, o.fid)
+		}
+		g.stores[o.sid] = o
+		n := g.namePool[r.Intn(len(g.namePool))]
+		g.emit("setcoll %d %s", o.sid, hx([]byte(n)))
+		o.names[n] = true
+	}
 	type wop struct {
 		w int
 		f func()
@@ -450,6 +468,60 @@ func (g *Gen) history() []string {
 			}
 		}},
 		{p.Dump, func() { g.emit("dump %d", g.pickStore(false).sid) }},
+		{p.HeapCheck, func() { g.emit("heapcheck") }},
+		{p.RefCheck, func() { g.emit("refcheck") }},
+		{p.Churn, func() { g.emit("churn %d", 5+r.Intn(60)); g.emit("heapcheck") }},
+		{p.NVisit, func() {
+			s := g.pickStore(false)
+			n := g.pickName(s, true)
+			dir := []string{"asc", "desc"}[r.Intn(2)]
+			tgt := []byte{}
+			if dir == "desc" {
+				tgt = []byte{0xff, 0xff}
+			}
+			if len(n) > 0 && n[0] == 'r' { // reversed comparator: swap the extreme targets
+				if dir == "asc" {
+					tgt = []byte{0xff, 0xff}
+				} else {
+					tgt = []byte{}
+				}
+			}
+			// the nested operation: any simple operation of the main generator
+			save := g.lines
+			g.lines = nil
+			for len(g.lines) == 0 {
+				switch r.Intn(8) {
+				case 0, 1, 2:
+					ws := g.pickStore(true)
+					if ws != nil {
+						nn := g.pickName(ws, true)
+						k := g.key()
+						g.emit("set %d %s %s %s %d", ws.sid, hx([]byte(nn)), hx(k), hx(g.val()), g.prio(nn, k))
+					}
+				case 3, 4:
+					ws := g.pickStore(true)
+					if ws != nil {
+						g.emit("del %d %s %s", ws.sid, hx([]byte(g.pickName(ws, true))), hx(g.key()))
+					}
+				case 5:
+					rs := g.pickStore(false)
+					if g.p.NoGet {
+						g.emit("geti %d %s %s 1", rs.sid, hx([]byte(g.pickName(rs, true))), hx(g.key()))
+						break
+					}
+					g.emit("get %d %s %s", rs.sid, hx([]byte(g.pickName(rs, true))), hx(g.key()))
+				case 6:
+					rs := g.pickStore(false)
+					g.emit("min %d %s 1", rs.sid, hx([]byte(g.pickName(rs, true))))
+				case 7:
+					rs := g.pickStore(false)
+					g.emit("totals %d %s", rs.sid, hx([]byte(g.pickName(rs, true))))
+				}
+			}
+			nested := g.lines[0]
+			g.lines = save
+			g.emit("nvisit %d %s %s %s %d %d | %s", s.sid, hx([]byte(n)), dir, hx(tgt), r.Intn(2), r.Intn(4), nested)
+		}},
 		{p.Shape, func() {
 			s := g.pickStore(false)
 			g.emit("shape %d %s", s.sid, hx([]byte(g.pickName(s, true))))
@@ -486,6 +558,14 @@ func (g *Gen) history() []string {
 	sort.Ints(ids)
 	for _, id := range ids {
 		g.emit("dump %d", id)
+	}
+	if p.CloseAll {
+		r.Shuffle(len(ids), func(i, j int) { ids[i], ids[j] = ids[j], ids[i] })
+		for _, id := range ids {
+			g.emit("close %d", id)
+		}
+		g.emit("refcheck")
+		g.emit("refbalance")
 	}
 	return g.lines
 }
